@@ -343,6 +343,10 @@ def families(tier='quick', seed=0):
 
 def select(tier, seed, fams=None):
     allt = families(tier, seed)
+    import os
+    only = os.environ.get('VERIF_ONLY')       # debugging aid: restrict to templates whose name contains this text
+    if only:
+        allt = [t for t in allt if only in t[1]]
     if fams is not None:
         allt = [t for t in allt if t[0] in fams]
     return allt
